@@ -192,10 +192,58 @@ theorem timeoutGate_same (s : St) : sameChan s (timeoutGate s).1 := by
   · exact (chooseData_same s).trans (continuedEvents_same _)
   · exact chooseData_same s
 
-theorem handleStart_same (s : St) : sameChan s (handleStart s).1 := by
+/-- src: select_first_channel (fixes/adv-02): never undefined, moves only the channel index, to the
+    lowest enabled channel (variable map: if the map is not empty) -/
+theorem selectFirst_spec (s : St) (hi : Inv s) :
+    ∃ i, selectFirst s = some { s with idx := i } ∧ Inv { s with idx := i }
+      ∧ currentChannel { s with idx := i } = chanIdx { s with idx := i } + 37
+      ∧ (effMap s ≠ 0 → (enabledIdxs (effMap s)).head? = some (chanIdx { s with idx := i })) := by
+  by_cases hv : s.cfg.varMap = true
+  · have hlt : s.map < 8 := by have := hi.map_lt; simpa [effMap, hv] using this
+    by_cases h0 : s.map = 0
+    · refine ⟨s.idx, by unfold selectFirst; rw [if_pos hv, if_neg (fun h => h h0)], hi, ?_, ?_⟩
+      · simp [currentChannel, chanIdx, hv]
+      · intro hm; simp [effMap, hv, h0] at hm
+    · obtain ⟨f, hf3, hff, hfb, hh⟩ := first_table s.map hlt h0
+      refine ⟨f, by simp [selectFirst, hv, h0, hff], ?_, ?_, ?_⟩
+      · exact ⟨by simpa [effMap, hv] using hlt, by simp [hv, hf3],
+          by intro _; simpa [effMap, chanIdx, hv] using hfb, hi.pert, hi.ivl⟩
+      · simp [currentChannel, chanIdx, hv]
+      · intro _; simpa [effMap, chanIdx, hv] using hh
+  · have hv' : s.cfg.varMap = false := by simpa using hv
+    refine ⟨37, by simp [selectFirst, hv'], ?_, ?_, ?_⟩
+    · exact ⟨by simp [effMap, hv'], by simp [hv'],
+        by intro _; simp only [effMap, chanIdx, hv', Bool.false_eq_true, if_false]; decide, hi.pert, hi.ivl⟩
+    · simp [currentChannel, chanIdx, hv']
+    · intro _; simp only [effMap, chanIdx, hv', Bool.false_eq_true, if_false]; decide
+
+/-- `handle_start_advertising` never fails; it changes nothing the channel / timing part reads except
+    the channel index, and if it schedules a PDU, then without delay on the (new) current channel,
+    which is the lowest enabled one -/
+theorem handleStart_spec (s : St) (hi : Inv s) :
+    ∃ r, handleStart s = some r ∧ Inv r.1 ∧ effMap r.1 = effMap s ∧ currentInterval r.1 = currentInterval s
+      ∧ (r.2 = none → sameChan s r.1)
+      ∧ ∀ ch d, r.2 = some (ch, d) →
+          d = 0 ∧ ch = currentChannel r.1 ∧ ch = chanIdx r.1 + 37
+            ∧ (effMap s ≠ 0 → (enabledIdxs (effMap s)).head? = some (chanIdx r.1)) := by
+  have hg := startGate_same s
+  have hi1 := hg.inv hi
   unfold handleStart
   simp only
-  split <;> exact startGate_same s
+  split
+  · obtain ⟨i, he, hinv, hcur, hlow⟩ := selectFirst_spec _ hi1
+    refine ⟨_, by rw [he]; rfl, hinv, ?_, ?_, by intro h; simp at h, ?_⟩
+    · rw [← hg.effMap]; simp only [effMap]
+    · rw [← hg.currentInterval]; simp only [currentInterval]
+    · intro ch d h
+      simp only [Option.some.injEq, Prod.mk.injEq] at h
+      obtain ⟨h1, h2⟩ := h
+      refine ⟨h2.symm, h1.symm, by rw [← h1]; exact hcur, ?_⟩
+      intro hm
+      have := hlow (by rw [hg.effMap]; exact hm)
+      rw [hg.effMap] at this
+      exact this
+  · exact ⟨_, rfl, hi1, hg.effMap, hg.currentInterval, fun _ => hg, by intro ch d h; simp at h⟩
 
 /-- what `next_channel(); next_adv_event()` does, for both channel map options: the channel index
     moves to the cyclic successor, the delay is 0 within an event and interval + 0..10 ms at the
